@@ -28,6 +28,8 @@ type Engine struct {
 	assigned  map[*types.Var]bool
 	repo      string
 	pureMemo  map[string]bool
+	litName   map[*ast.FuncLit]string
+	litOf     map[string]*ast.FuncLit
 	constInit map[*types.Var]types.TypeAndValue // package-level vars with a constant initialiser
 	nonNilG   map[*types.Var]bool               // package-level vars initialised with &T{...} or a call of errors.New-like constructors
 }
@@ -222,6 +224,31 @@ func load(repo string, patterns []string) (*Engine, error) {
 				full := funcFullName(obj)
 				e.decls[full] = fd
 				e.declPkg[full] = p
+				// function literals are addressable as <function>$<k> (k-th literal in source order):
+				// a contract on that name verifies the literal as a function of its own, with the
+				// variables it captures unknown at entry
+				if fd.Body != nil {
+					k := 0
+					ast.Inspect(fd.Body, func(n ast.Node) bool {
+						lit, ok := n.(*ast.FuncLit)
+						if !ok {
+							return true
+						}
+						k++
+						name := fmt.Sprintf("%s$%d", full, k)
+						id := ast.NewIdent(fmt.Sprintf("%s$%d", fd.Name.Name, k))
+						id.NamePos = lit.Pos()
+						e.decls[name] = &ast.FuncDecl{Name: id, Type: lit.Type, Body: lit.Body}
+						e.declPkg[name] = p
+						if e.litName == nil {
+							e.litName = map[*ast.FuncLit]string{}
+							e.litOf = map[string]*ast.FuncLit{}
+						}
+						e.litName[lit] = name
+						e.litOf[name] = lit
+						return true
+					})
+				}
 			}
 			for _, d := range f.Decls {
 				gd, ok := d.(*ast.GenDecl)
